@@ -7,6 +7,8 @@
 (*           {"e": "Row", "ref", "rev", "index", "conf": confRank, "has": BOOLEAN} |                               *)
 (*           {"e": "Cands", "n": number of rows in the message}],                                                  *)
 (*    "res": {"has": BOOLEAN, "conf": confRank},   what the coordinator returned for the task (after its filter)   *)
+(*    "judge": BOOLEAN,    FALSE = a second-pass task (a fragment): what the coordinator returned for it is not visible  *)
+(*                         in the run's result (the rows are filtered and joined afterwards), "res" is not judged    *)
 (*    "rebuilt": BOOLEAN}  TRUE = the coordinator dispatched fewer than 2 x references primary correlations; the   *)
 (*                         Primary events were then computed with the real getInitialAlignment outside it          *)
 (* Scores and confidences are replaced by their ranks among the task's values (order and equality are all that the *)
@@ -100,8 +102,8 @@ C05_Log_Failed ==
         W == RowsSeen
         mx == IF Len(W) = 0 THEN 0 ELSE CHOOSE c \in {W[i].conf : i \in 1..Len(W)} : \A i \in 1..Len(W) : W[i].conf <= c
     IN (IF Len(W) <= PeaksCount THEN {} ELSE {"C05:more_candidates_than_peaksCount"})
-       \cup (IF res.has /\ (Len(W) = 0 \/ res.conf # mx) THEN {"C05:returned_row_is_not_a_most_confident_candidate"} ELSE {})
-       \cup (IF ~res.has /\ Len(W) > 0 /\ \A i \in 1..Len(W) : (W[i].conf = mx => W[i].has)
+       \cup (IF Traces[t].judge /\ res.has /\ (Len(W) = 0 \/ res.conf # mx) THEN {"C05:returned_row_is_not_a_most_confident_candidate"} ELSE {})
+       \cup (IF Traces[t].judge /\ ~res.has /\ Len(W) > 0 /\ \A i \in 1..Len(W) : (W[i].conf = mx => W[i].has)
              THEN {"C05:most_confident_candidate_has_pairs_but_no_row_was_returned"} ELSE {})
 
 Verdict ==
